@@ -20,6 +20,11 @@ RULE = ('history = generated program (direct/nested/with-items/async) + '
         'distinct = (command kind, state of the target when issued, program '
         'hash, choices taken)')
 
+def _kinds():
+    from mv import history
+    return history.CMD_KINDS + ('orphan_update', 'orphan_update')
+
+
 WF_ALLOWED = {
     ('IDLE', 'RUNNING'),
     ('RUNNING', 'PAUSED'), ('RUNNING', 'SUCCESS'), ('RUNNING', 'ERROR'),
@@ -76,6 +81,7 @@ def check_history(h, stats=None, case=None):
                      'detail': {'from': pair[0], 'to': pair[1],
                                 'event': list(ev)}})
     # ---- committed rows after every step
+    trace_by_step = {r['step']: r for r in res.trace}
     prev = None
     accepted_count = {}
     completions = {}
@@ -104,8 +110,17 @@ def check_history(h, stats=None, case=None):
                             'detail': {'from': p['state'], 'to': w['state'],
                                        'step': step, 'event': label,
                                        'cas_chain': chain}})
+                left_and_back = any(
+                    c['fn'] == 'update_workflow_execution_state'
+                    and c['matched'] and c['id'] == wid
+                    and (c.get('event') or (None,))[0] == step
+                    for c in res.cas)
+                # (an execution that a rerun / skip command took out of its
+                # final state and that finished again inside the same event
+                # has legitimately a new output; each of its moves is
+                # validated through the compare-and-swap log above)
                 if p['state'] in FINAL and p['state'] == w['state'] and \
-                        p['output'] != w['output']:
+                        p['output'] != w['output'] and not left_and_back:
                     viol.append({'kind': 'finished-workflow-output-changed',
                                  'detail': {'state': w['state'],
                                             'step': step, 'event': label,
@@ -124,6 +139,23 @@ def check_history(h, stats=None, case=None):
                         continue
                     viol.append({'kind': 'succeeded-task-changed-state',
                                  'detail': {'task': t['name'],
+                                            'to': t['state'], 'step': step,
+                                            'event': label}})
+                if p['state'] in ('ERROR', 'CANCELLED') and \
+                        t['state'] != p['state'] and rer is None and \
+                        not _rerun_continuation(trace_by_step.get(step), tid):
+                    # finished results are final: a failed or cancelled task
+                    # is revived only by an explicit rerun / skip command
+                    # (of itself or, for a parent task, of a descendant)
+                    if t.get('spec_join') is not None and \
+                            t['state'] in ('WAITING', 'RUNNING'):
+                        if stats:
+                            stats.counters[
+                                'known_shape_join_retrigger_seen'] += 1
+                        continue
+                    viol.append({'kind': 'finished-task-left-final-state',
+                                 'detail': {'task': t['name'],
+                                            'from': p['state'],
                                             'to': t['state'], 'step': step,
                                             'event': label}})
             for aid, a in snap['action'].items():
@@ -177,6 +209,16 @@ def check_history(h, stats=None, case=None):
     return out
 
 
+def _rerun_continuation(rec, tid):
+    """Is this event the start_task message a rerun / skip command sent for
+    the task (the command itself only queues it)?"""
+    if not rec or rec.get('kind') != 'msg':
+        return False
+    kw = rec.get('kw') or {}
+    return rec.get('label', '').startswith('start_task') and \
+        kw.get('task_ex_id') == tid and bool(kw.get('rerun'))
+
+
 def check_case(case, stats=None):
     from mv import history
     from mv.gen import workflows as G
@@ -196,7 +238,8 @@ def check_case(case, stats=None):
             kinds.add((rec['cmd'], tgt[3], rec.get('state')))
             if rec.get('pending_events', 0) >= 1:
                 nontriv = True
-            if rec['cmd'] in ('late_result', 'late_update', 'revive') or (
+            if rec['cmd'] in ('late_result', 'late_update', 'revive',
+                              'orphan_update') or (
                     rec['cmd'] == 'action_update' and tgt[3] in FINAL):
                 nontriv = True
             if rec.get('result') == 'exc':
@@ -229,6 +272,7 @@ def strategy(max_tasks=6, max_cmds=5, kinds=None, feats=None):
     def strat(draw):
         D = HDraw(draw)
         F = feats or G.feats(with_items=True, async_actions=True,
+                             async_timeout_p=0.5, async_p=0.25,
                              cycles=False, expr_failures=False)
         if D.bool(0.5):
             prog, outc = G.gen_nested(D, F, max_tasks)
@@ -238,7 +282,7 @@ def strategy(max_tasks=6, max_cmds=5, kinds=None, feats=None):
                 'sched': enginerun.gen_schedule(D, max_devs=5),
                 'salt': D.int(0, 20),
                 'plan': history.gen_plan(D, max_cmds=max_cmds, horizon=45,
-                                         kinds=kinds or history.CMD_KINDS)}
+                                         kinds=kinds or _kinds())}
     return strat()
 
 
